@@ -711,7 +711,6 @@ func (m *resWrangler) ApplySmPatch(selectedSet *resource.IdSet, patch *resource.
 	for _, res := range m.rList {
 		if selectedSet.Contains(res.CurId()) {
 			patchCopy := patch.DeepCopy()
-			patchCopy.CopyMergeMetaDataFieldsFrom(patch)
 			patchCopy.SetGvk(res.GetGvk())
 			patchCopy.SetKind(patch.GetKind())
 			if err := res.ApplySmPatch(patchCopy); err != nil {
